@@ -396,8 +396,8 @@ func C14(c *fw.Ctx) {
 		"UTF-8, trailing slashes, long names) against a sandbox with files and directories inside the project and decoys outside; "+
 		"include graphs: all digraphs on <= 3 files and sampled graphs on 4-5 files (files hold only INCLUDEs); include trees: seeded projects "+
 		"with files in six nested directories where the same parameter text occurs in several directories and resolves to different files, to a "+
-		"directory or to nothing, and 7 targets that exist but are no regular files (named pipe, links to devices, to a directory, dangling, " +
-		"to itself) - the set of consulted paths must equal the set a reference resolver (parameter relative to the directory of its "+
+		"directory or to nothing, and 7 targets that exist but are no regular files (named pipe, links to devices, to a directory, dangling, "+
+		"to itself), and an INCLUDE in each of 22 positions a keyword line can stand in (after a description text, an annotation, a body ...) naming a missing file, a directory, the root file and an existing file - the set of consulted paths must equal the set a reference resolver (parameter relative to the directory of its "+
 		"file, depth-first, stop at the first miss) computes, and a miss must be an error at that INCLUDE; the deciding observer is the "+
 		"file-access hook (every Stat/ReadFile the builder issues); thorough tier: an strace pass cross-checks the hook against the kernel; "+
 		"distinct = distinct project bytes; non-trivial = every case", maxLen))
@@ -471,6 +471,18 @@ func C14(c *fw.Ctx) {
 			emit(&proto.Job{ID: fmt.Sprintf("special/%d", i), Root: "root.jst", WantFiles: true, Files: map[string][]byte{
 				"root.jst": []byte("JSIGHT 0.3\nTYPE @before any\nINCLUDE " + sp.target + "\n"), sp.target: []byte(sp.content), "sub/x.jst": []byte("TYPE @x any\n")}})
 		}
+		// an INCLUDE in every position a keyword line can stand in (after a description text, an annotation, a body, a comment ...),
+		// naming a missing file, a directory, the root file (a cycle) and an existing file
+		for pi, pl := range keywordPlacements() {
+			for ti, target := range []string{"nowhere.jst", "sub", "root.jst", "sub/x.jst"} {
+				eol := "\n"
+				if strings.Contains(pl.before, "\r\n") {
+					eol = "\r\n"
+				}
+				emit(&proto.Job{ID: fmt.Sprintf("position/%d/%d", pi, ti), Root: "root.jst", WantFiles: true, Files: map[string][]byte{
+					"root.jst": []byte(pl.before + pl.indent + "INCLUDE " + target + eol), "sub/x.jst": []byte("TYPE @x any\n")}})
+			}
+		}
 		tr := gen.Rng(c.Seed, c.ID, "trees")
 		for s := 0; s < c.Pick(1500, 60000); s++ {
 			t := genTree(tr)
@@ -542,6 +554,43 @@ func C14(c *fw.Ctx) {
 			}
 			return
 		}
+		if strings.HasPrefix(j.ID, "position/") {
+			var pi, ti int
+			fmt.Sscanf(strings.ReplaceAll(strings.TrimPrefix(j.ID, "position/"), "/", " "), "%d %d", &pi, &ti)
+			pl := keywordPlacements()[pi]
+			line := strings.Count(pl.before, "\n") + 1
+			c.Inc("include_positions", pl.name, 1)
+			rp := replayOf(j, res)
+			if sig, what := crashSig(res); sig != "" {
+				c.Violate(sig, what, rp)
+				return
+			}
+			what := []string{"a missing file", "a directory", "the root file", "an existing file"}[ti]
+			if ti == 3 {
+				read := false
+				for _, e := range res.Files {
+					if e.Op == "read" && strings.HasSuffix(filepath.Clean(e.Path), "/sub/x.jst") {
+						read = true
+					}
+				}
+				if !read {
+					c.Violate("position:include-not-processed", fmt.Sprintf("INCLUDE of an existing file %s (root.jst:%d): the file was never read (%v)", pl.name, line, res.Err), rp)
+				}
+				return
+			}
+			if res.Err == nil {
+				c.Violate("position:accepted", fmt.Sprintf("INCLUDE of %s %s (root.jst:%d) was accepted", what, pl.name, line), rp)
+				return
+			}
+			if res.Err.Line != line || relName(res, res.Err.File) != "root.jst" {
+				c.Violate("position:error-location", fmt.Sprintf("INCLUDE of %s %s is at root.jst:%d, error at %s:%d (%s)", what, pl.name, line, relName(res, res.Err.File), res.Err.Line, res.Err.Msg), rp)
+				return
+			}
+			if ti == 2 && !strings.Contains(res.Err.Msg, "recursion") {
+				c.Violate("position:cycle-message", fmt.Sprintf("INCLUDE of the root file %s reported as %q", pl.name, res.Err.Msg), rp)
+			}
+			return
+		}
 		if strings.HasPrefix(j.ID, "tree/") {
 			maxMuLock.Lock()
 			t := trees[j.ID]
@@ -583,9 +632,8 @@ func C14(c *fw.Ctx) {
 			c.Violate("graph:cycle-accepted", fmt.Sprintf("include cycle closed at %s:%d was accepted", ef, el), rp)
 			return
 		}
-		// The property fixes neither which INCLUDE of the cycle carries the error nor its precedence over other rules:
-		// a cycle through the root file meets "JSIGHT is not allowed in included files" first. Required: a recursion
-		// error on a line that holds an INCLUDE of a project file, or that JSIGHT error on the root's first line.
+		// The property does not fix which INCLUDE of the cycle carries the error. Required: a recursion error on a line that
+		// holds an INCLUDE of a project file.
 		name := relName(res, res.Err.File)
 		switch {
 		case strings.Contains(res.Err.Msg, "recursion"):
@@ -594,8 +642,6 @@ func C14(c *fw.Ctx) {
 				c.Violate("graph:cycle-location", fmt.Sprintf("recursion error at %s:%d which holds no INCLUDE (reference: cycle closed at %s:%d)", name, res.Err.Line, ef, el), rp)
 			}
 			c.Inc("graphs", "cycle-reported-as-recursion", 1)
-		case strings.Contains(res.Err.Msg, "not allowed in included files") && name == ig.order[0] && res.Err.Line == 1:
-			c.Inc("graphs", "cycle-through-root-reported-as-JSIGHT-in-included-file", 1)
 		default:
 			c.Violate("graph:cycle-message", fmt.Sprintf("include cycle reported as %q at %s:%d", res.Err.Msg, name, res.Err.Line), rp)
 		}
